@@ -36,6 +36,44 @@ def digest(*objs):
     return hashlib.sha1(s.encode()).hexdigest()[:16]
 
 
+def other_use(kind, inp):
+    """unrelated use of the library in the same process (ResolverAPI!Other)"""
+    import pysmiles
+    import networkx as nx
+    from cgsmiles import MoleculeResolver, read_cgsmiles
+    from cgsmiles.read_fragments import read_fragments
+    if kind == "mass":
+        # a plain molecule graph without fragment attributes
+        from cgsmiles.pysmiles_utils import compute_mass, rebuild_h_atoms
+        g = pysmiles.read_smiles("CC(=O)O")
+        compute_mass(g)
+        h = nx.Graph()
+        h.add_node(0, element="C", aromatic=False, charge=0)
+        h.add_node(1, element="O", aromatic=False, charge=0)
+        h.add_edge(0, 1, order=1)
+        rebuild_h_atoms(h)
+    elif kind == "sample":
+        from cgsmiles.sample import MoleculeSampler
+        s = MoleculeSampler.from_fragment_string("{#A=[$]CC[$],#B=[$]C(C)O[$]}", polymer_reactivities={"$1": 1.0},
+                                                 all_atom=True, seed=3)
+        s.sample(150)
+        s2 = MoleculeSampler.from_fragment_string("{#A=[>][#X][<],#B=[>][#Y]([#Z])[<]}", polymer_reactivities={">1": 0.5, "<1": 0.5},
+                                                  fragment_masses={"A": 10, "B": 20}, all_atom=False, seed=4)
+        s2.sample(60)
+    elif kind == "write":
+        from cgsmiles.write_cgsmiles import write_cgsmiles_graph, write_cgsmiles_fragments
+        r = MoleculeResolver.from_string("{[#A][#B]1[#A][#A]1}.{#A=[$]C[$][$],#B=[$]N(C)[$][$]}")
+        meta, mol = r.resolve()
+        write_cgsmiles_graph(meta)
+        write_cgsmiles_fragments({n: g for n, g in r.fragment_dicts[0].items()}, smiles_format=True)
+    elif kind == "read":
+        read_cgsmiles("{[#A;q=1;mass=72]([#B;w=0.5])|2[#A;q=1;mass=72]1[#C][#C]1}")
+        read_fragments("{#A=[$]C[C;x=R;w=0.5](F)[$],#B=[<]c1ccccc1[>]}")
+        read_fragments("{#A=[$][#K][#L;0.5][$]}", all_atom=False)
+    else:
+        raise ValueError(kind)
+
+
 def main():
     import re
     from cgsmiles import MoleculeResolver, read_cgsmiles
@@ -61,7 +99,9 @@ def main():
             rec = {"op": ev["op"], "obj": ev["obj"], "inp": ev["inp"], "ctor": ev["ctor"], "outcome": "ok", "yields": []}
             try:
                 with project.quiet():
-                    if ev["op"] == "new_bad":
+                    if ev["op"] == "other":
+                        other_use(ev["ctor"], inp)
+                    elif ev["op"] == "new_bad":
                         text = inp["variants"][0]
                         elements = re.findall(r"\{[^\}]+\}", text)
                         if ev["ctor"] == "graph_without_fragname":
